@@ -85,6 +85,12 @@ func GenGenesis(t *rapid.T, prof *Profile) GenesisSpec {
 		g.Notes = append(g.Notes, "vesting{A3 spendable="+keep+"}")
 	}
 
+	// a fee pool that is not empty at genesis (fees collected before the export this chain started from)
+	if draw("g.feepool", 4) == 3 {
+		g.Funds = append(g.Funds, Fund{Addr: feePoolAddrStr(), Coins: "1234567" + DenomRegen + ",777" + DenomStake})
+		g.Notes = append(g.Notes, "fee-pool-funded-at-genesis")
+	}
+
 	// credit types
 	cts := []map[string]interface{}{{"abbreviation": "C", "name": "carbon", "unit": "metric ton CO2 equivalent", "precision": 6}}
 	switch draw("g.credittypes", 3) {
